@@ -455,6 +455,20 @@ pub fn cases_geo(tier: &str, rng: &mut Rng, stats: &mut Stats, out: &mut Out) {
         let (id, _) = out.case(&case);
         out.verdict(&id, &crate::cases::show_case(&case), oracle_c20_dims(d, &p));
     }
+    // rings that come back to their first vertex up to the sign of a zero coordinate (IEEE-closed)
+    {
+        let b = |v: f64| v.to_bits();
+        let nz = 0x8000_0000_0000_0000u64;
+        let ext = vec![(b(0.0), b(0.0)), (b(0.0), b(4.0)), (b(4.0), b(4.0)), (b(4.0), b(0.0)), (nz, b(0.0))];
+        let hole = vec![(b(1.0), b(0.0)), (b(2.0), b(1.0)), (b(1.0), b(2.0)), (b(1.0), nz)];
+        let ext2 = vec![(nz, nz), (b(0.0), b(9.0)), (b(9.0), b(9.0)), (b(0.0), b(0.0))];
+        for geo in [G::Polygon(ext.clone(), vec![hole.clone()]), G::Polygon(ext2.clone(), vec![]), G::MultiPolygon(vec![(ext, vec![hole]), (ext2, vec![])])] {
+            stats.hit("geo.signed-zero-ring");
+            let case = Case::Geo(GeoCase::G2S(geo.clone()));
+            let (id, _) = out.case(&case);
+            out.verdict(&id, &crate::cases::show_case(&case), oracle_c20_geo(&geo));
+        }
+    }
     // null shape is refused
     let id = out.oracle_only_id();
     let r = gt::Geometry::<f64>::try_from(Shape::NullShape);
